@@ -247,6 +247,8 @@ class Engine:
 
     def seq_contains(self, sq: SeqT, a, x):
         i = self.fresh("c", I)
+        if isinstance(sq.elem, SeqT):        # elements that are sequences compare extensionally
+            return z3.Exists([i], z3.And(0 <= i, i < sq.len(a), self.seq_eq(sq.elem, sq.arr(a)[i], x)))
         return z3.Exists([i], z3.And(0 <= i, i < sq.len(a), sq.arr(a)[i] == x))
 
     # ------------------------------------------------------------------ coercion / truthiness / equality
@@ -364,7 +366,7 @@ class Engine:
 
     def const(self, v):
         if v is None: return SV(NULL, NONE)
-        if isinstance(v, bool): return SV(z3.BoolVal(v), BOOL)
+        if isinstance(v, bool): return SV(z3.BoolVal(v), BOOL, py=v)
         if isinstance(v, int): return SV(z3.IntVal(v), INT)
         if isinstance(v, str): return SV(self.strconst(v), STR, py=v)
         raise Unsupported("constant %r" % (v,))
@@ -519,8 +521,14 @@ class Engine:
             if isinstance(op, ast.Mod): return SV(a.v % b.v, INT)
             if isinstance(op, ast.BitAnd):
                 f = z3.Function("bitand", I, I, I); return SV(f(a.v, b.v), INT)
+        if isinstance(op, ast.Add) and isinstance(a.ty, TupT) and isinstance(b.ty, SeqT):
+            a = self.coerce(a, b.ty, st)
+        if isinstance(op, ast.Add) and isinstance(b.ty, TupT) and isinstance(a.ty, SeqT):
+            b = self.coerce(b, a.ty, st)
         if isinstance(op, ast.Add) and isinstance(a.ty, SeqT) and isinstance(b.ty, SeqT) and a.ty.sort == b.ty.sort:
             return self.seq_concat(a.ty, a.v, b.v, st)
+        if isinstance(op, ast.Mult) and a.ty is STR and b.ty is INT:
+            return SV(self.str_repeat(a.v, b.v), STR)
         if isinstance(op, (ast.Add, ast.Mod)) and (a.ty is STR or b.ty is STR):
             # concatenation / formatting as an uninterpreted FUNCTION of its operands (the text itself is dropped)
             a2 = a if a.ty is STR else SV(z3.Function("str_of_" + T._sname(a.ty.sort), a.ty.sort, Str)(a.v), STR)
@@ -535,6 +543,19 @@ class Engine:
                     self.axioms.append(z3.ForAll([x, y], gf(x, y) != SNONE))
             return r
         raise Unsupported("binop %s on %s,%s line %s" % (type(op).__name__, a.ty, b.ty, getattr(n, "lineno", "?")))
+
+    def str_repeat(self, s, n):
+        """s * n as an uninterpreted function; trusted facts only for the one-character string ".":
+        len("." * n) == n (n >= 0), "." * n injective in n, "." * 1 == "." """
+        f = z3.Function("str_repeat", Str, I, Str); ln = z3.Function("str_len", Str, I)
+        if not getattr(self, "_rep_ax", False):
+            self._rep_ax = True
+            dot = self.strconst("."); i, j = z3.Ints("rp_i rp_j"); x = z3.Const("rp_x", Str)
+            self.axioms.append(z3.ForAll([i], z3.Implies(i >= 0, ln(f(dot, i)) == i)))
+            self.axioms.append(z3.ForAll([i], f(dot, i) != SNONE))
+            self.axioms.append(f(dot, z3.IntVal(1)) == dot)
+            self.axioms.append(z3.ForAll([x], ln(x) >= 0))
+        return f(s, n)
 
     def seq_concat(self, sq, a, b, st):
         n = sq.len(a) + sq.len(b)
@@ -1106,6 +1127,8 @@ class Engine:
             if nm in c.static:
                 st.loc[nm] = self.const(c.static[nm]); continue      # the function is verified for this argument value
             st.loc[nm] = SV(z3.Const("arg_" + nm, ty.sort), ty)
+            if isinstance(ty, SeqT):
+                st.pc.append(ty.len(st.loc[nm].v) >= (1 if isinstance(ty, PathT) else 0))
             if ty.sort == Ref:
                 # declared object parameters exist (allocated) before the call and are not None
                 st.pc.append(st.H("alloc", B)[st.loc[nm].v])
@@ -1164,7 +1187,7 @@ class Engine:
                 self.oblige(st, "no-undeclared-exception", e.tag or "*", z3.BoolVal(False), None,
                             "exception %s (%s) is not declared by the contract, so this path must be infeasible" % (e.tag, e.origin))
                 return
-            ev = SpecEval(self, st, self.old, {"raised": SV(e.ref, RefT(e.tag or "BaseException"))})
+            ev = SpecEval(self, st, self.old, {"raised": SV(e.ref, RefT(e.tag or "BaseException"))}, set(c.params))
             for cl in c.raises[decl]:
                 self.oblige(st, cl.kind, cl.label, ev.bool(cl.ast), None, cl.text)
             self.exit_frame(c, st, "raises[%s]" % decl)
@@ -1178,7 +1201,7 @@ class Engine:
                 env["result"] = self.coerce(res, self.ptype(c.returns), st)
             else:
                 env["result"] = res
-            ev = SpecEval(self, st, self.old, env)
+            ev = SpecEval(self, st, self.old, env, set(c.params))     # parameter names denote the values at entry
             for cl in c.ensures:
                 self.oblige(st, "ensures", cl.label, ev.bool(cl.ast), None, cl.text)
             self.exit_frame(c, st, "ensures")
